@@ -37,6 +37,7 @@ def main():
         # restore the generated tables and evidence from /repo itself
         subprocess.run([sys.executable, os.path.join(VERIF, "gen", "scan_sites.py")], capture_output=True)
         subprocess.run([sys.executable, os.path.join(VERIF, "gen", "ast2coq.py")], capture_output=True)
+        subprocess.run([sys.executable, os.path.join(VERIF, "gen", "symkern.py")], capture_output=True)
     return 0
 
 
